@@ -40,13 +40,13 @@ theorem C08_perm_spec (c : Cfg) (f : Faults) (hf : NoReadFaults f) (above : List
 the packages are a permutation of each other, and the emitted, sorted key sequence is IDENTICAL. -/
 theorem C08_perm_scan (nm : Naming) (c : Cfg) (hb : Benign c) (hp : c.paths = []) (f : Faults) (hf : NoReadFaults f)
     (root : Node) (ρ : Rearr) (hρ : ∀ p l, (ρ p l).Perm l)
-    (ho : GiOK c root) (ho' : GiOK c (permuteTree ρ [] root)) :
+    (ho : GiOK c) :
     (run c [(permuteTree ρ [] root, f)]).pkgs.Perm (run c [(root, f)]).pkgs ∧
     (scan nm c [(permuteTree ρ [] root, f)]).pkgs.map nm.key = (scan nm c [(root, f)]).pkgs.map nm.key := by
-  have h1 := run_results c hb [(root, f)] (by simpa using ho)
-  have h2 := run_results c hb [(permuteTree ρ [] root, f)] (by simpa using ho')
-  have e1 := run_spec c hb [(root, f)] (by simpa using ho)
-  have e2 := run_spec c hb [(permuteTree ρ [] root, f)] (by simpa using ho')
+  have h1 := run_results c hb [(root, f)] ho
+  have h2 := run_results c hb [(permuteTree ρ [] root, f)] ho
+  have e1 := run_spec c hb [(root, f)] ho
+  have e2 := run_spec c hb [(permuteTree ρ [] root, f)] ho
   have hperm : (mustExtract c [(permuteTree ρ [] root, f)]).Perm (mustExtract c [(root, f)]) := by
     simp only [mustExtract, List.flatMap_cons, List.flatMap_nil, List.append_nil, mustRoot, hp, List.isEmpty_nil, if_true]
     split
@@ -64,14 +64,14 @@ theorem C08_perm_scan (nm : Naming) (c : Cfg) (hb : Benign c) (hp : c.paths = []
 /-- Scanning several roots yields exactly the concatenation of scanning each root alone (inventory and
 statuses), so no package is reported twice. (Before fix 88fdbb3a every earlier root's packages were
 reported again for each later root.) -/
-theorem C08_roots (c : Cfg) (hb : Benign c) (roots : List (Node × Faults)) (ho : ∀ rf ∈ roots, GiOK c rf.1) :
+theorem C08_roots (c : Cfg) (hb : Benign c) (roots : List (Node × Faults)) (ho : GiOK c) :
     (run c roots).pkgs = roots.flatMap (fun rf => (run c [rf]).pkgs) ∧
     (run c roots).statuses = roots.flatMap (fun rf => (run c [rf]).statuses) := by
   have h := run_results c hb roots ho
   have h1 : ∀ rf ∈ roots, (run c [rf]).pkgs = pkgsOfCalls c (mustRoot c rf.2 rf.1) ∧
       (run c [rf]).statuses = (List.range c.nExt).map fun e => (e, statusSpec c rf.2 rf.1 e) := by
     intro rf hrf
-    have := run_results c hb [rf] (by intro x hx; simp at hx; subst hx; exact ho _ hrf)
+    have := run_results c hb [rf] ho
     obtain ⟨r, f⟩ := rf
     simpa [mustExtract] using this
   constructor
